@@ -93,7 +93,12 @@ Inductive op :=
 | Exchange (i j : N)       (* Gossip.GossipOnceWith from i to j's address *)
 | Tick (i : N)             (* incrementHostHeartbeat *)
 | SetState (i s : N)       (* host changes its own state and ticks *)
-| Restart (i : N).         (* cluster.Open on an existing store: Heartbeat.Restart *)
+| Restart (i : N)          (* cluster.Open on an existing store: Heartbeat.Restart *)
+| ExchangeN (i j : N) (inner : list (N * N)).
+    (* an exchange from i to j DURING which other operations complete: j has computed its ack from i's digests, then
+       [inner] runs — (k, l) with k <> l is a whole exchange from k to l, (k, k) is a heartbeat tick of k — and only
+       then does i process the ack (merge into its CURRENT store, ack2 from its CURRENT snapshot) and j merge the
+       ack2 into its CURRENT store.  GossipOnceWith takes no lock across the round trip. *)
 
 Global Instance op_eq_dec : EqDecision op.
 Proof. solve_decision. Defined.
@@ -107,7 +112,7 @@ Definition upd_host (c : cluster) (i : N) (f : member -> member) : cluster :=
   | None => c
   end.
 
-Definition step (strict : bool) (c : cluster) (o : op) : cluster :=
+Definition bstep (strict : bool) (c : cluster) (o : op) : cluster :=
   match o with
   | Exchange i j =>
       if decide (i = j) then c else
@@ -119,6 +124,32 @@ Definition step (strict : bool) (c : cluster) (o : op) : cluster :=
   | Tick i => upd_host c i (fun m => Member (hb_incr (m_hb m)) (m_state m) (m_addr m))
   | SetState i s => upd_host c i (fun m => Member (hb_incr (m_hb m)) s (m_addr m))
   | Restart i => upd_host c i (fun m => Member (hb_restart (m_hb m)) (m_state m) (m_addr m))
+  | ExchangeN _ _ _ => c
+  end.
+
+Definition inner_op (kl : N * N) : op := if decide (kl.1 = kl.2) then Tick kl.1 else Exchange kl.1 kl.2.
+
+Definition step (strict : bool) (c : cluster) (o : op) : cluster :=
+  match o with
+  | ExchangeN i j inner =>
+      if decide (i = j) then c else
+      match c !! i, c !! j with
+      | Some vi0, Some vj0 =>
+          let a := sync vj0 (view_digests vi0) in
+          let c1 := fold_left (fun c kl => bstep strict c (inner_op kl)) inner c in
+          match c1 !! i with
+          | Some vi1 =>
+              let '(vi', ack2) := ack strict vi1 a in
+              let c2 := <[i := vi']> c1 in
+              match c2 !! j with
+              | Some vj1 => <[j := merge vj1 ack2]> c2
+              | None => c2
+              end
+          | None => c1
+          end
+      | _, _ => c
+      end
+  | _ => bstep strict c o
   end.
 
 Definition run (strict : bool) (c : cluster) (ops : list op) : cluster :=
